@@ -248,6 +248,8 @@ def rand_op(rng, j, nn=6):
             it = item(m=rand_members(rng, nn, allow_none=rng.random() < 0.3), id=rid() if fmt in (2, 4, 5) else -1,
                       a=rand_attr(rng) if fmt in (3, 4) else [])
             it["h"] = rand_members(rng, nn, allow_none=rng.random() < 0.2)
+            if fmt == 5 and rng.random() < 0.4:  # equal sides / equal tails across items: candidates for shared objects
+                it["h"] = list(it["m"]) if rng.random() < 0.5 or not its else list(its[-1]["m"])
             its.append(it)
         if fmt == 5:
             seen, u = set(), []
